@@ -207,6 +207,48 @@ fn supervisor(argv: &[String]) {
     part.finish(out.as_deref());
 }
 
+/// `simx tcp --out F <scenario>:<variant> ...`: for each named default execution, the
+/// free-running loopback-TCP run and the mock run must give the same per-actor results and
+/// the same per-channel wire projection.
+fn tcp_conformance(argv: &[String]) {
+    use vh::sim::explore::{per_channel, run_free_tcp};
+    let out = arg(argv, "--out");
+    let tier = arg(argv, "--tier").unwrap_or_else(|| "quick".into());
+    let prop = arg(argv, "--property").unwrap_or_else(|| "C01".into());
+    let mut part = Part::new(&prop, "tcp-conformance", "simx", "model_checking", &tier);
+    part.rule = "binding of the transport and broker models to the real thing: the default execution of each listed scenario variant is run twice - under the controller over the mock transport, and free-running (no controller, real blocking calls) over a real mio TcpStream connected through the loopback interface to the same scripted broker served by a thread - and the per-actor results and the per-channel projection of the bytes the broker received must be equal".into();
+    let specs: Vec<&String> = argv.iter().skip(2).filter(|a| a.contains(':') && !a.starts_with("--")).collect();
+    for spec in specs {
+        let (name, vi) = spec.split_once(':').unwrap();
+        let scn = find(name);
+        let vi: usize = vi.parse().unwrap();
+        let variants = scn.variants(&tier);
+        let params = &variants[vi];
+        let mock = run_once(scn, params, &[], &[], false);
+        part.evaluations += 2;
+        part.distinct_nontrivial += 2;
+        part.transitions += mock.points.len() as u64;
+        part.states += mock.points.len() as u64;
+        part.traces_validated += 2;
+        match run_free_tcp(scn, params) {
+            Err(e) => part.violation("tcp-conformance:free-run-failed", format!("{} variant {}: {}", name, vi, e), json!({"engine":"simx","scenario":name,"params":params,"decisions":[]})),
+            Ok((logs, wire)) => {
+                if logs != mock.outcome.logs {
+                    part.violation("tcp-conformance:results-differ", format!("{} variant {}: over TCP {:?}; over the mock transport {:?}", name, vi, logs, mock.outcome.logs), json!({"engine":"simx","scenario":name,"params":params,"decisions":[]}));
+                }
+                if per_channel(&wire) != per_channel(&mock.outcome.wire) {
+                    part.violation("tcp-conformance:wire-differs", format!("{} variant {}: the broker received {} bytes over TCP and {} over the mock transport; the per-channel frame sequences differ", name, vi, wire.len(), mock.outcome.wire.len()), json!({"engine":"simx","scenario":name,"params":params,"decisions":[]}));
+                }
+                part.sample(json!({"scenario": name, "variant": vi, "tcp_bytes": wire.len(), "mock_bytes": mock.outcome.wire.len(), "logs": logs}));
+            }
+        }
+        for (k, d) in &mock.violations {
+            part.violation(k, d.clone(), json!({"engine":"simx","scenario":name,"params":params,"decisions":[]}));
+        }
+    }
+    part.finish(out.as_deref());
+}
+
 fn main() {
     install_quiet_panic_hook();
     let argv: Vec<String> = std::env::args().collect();
@@ -222,6 +264,7 @@ fn main() {
         }
         "run" => supervisor(&argv),
         "worker" => worker(&argv),
+        "tcp" => tcp_conformance(&argv),
         "trace" => {
             let scn = find(&argv[2]);
             let tier = arg(&argv, "--tier").unwrap_or_else(|| "quick".into());
